@@ -3,6 +3,7 @@
 from __future__ import annotations
 
 import itertools
+import zlib
 import random
 
 import z3
@@ -38,7 +39,19 @@ def configs(check: Check):
         [mc.T(["A"]), mc.T(["A", "B"], ["3"], False)], [mc.T(["a"]), mc.T(["a", "A"]), mc.T(["b", "B"], ["2.5"])],
         [mc.T(["B", "A"])], [mc.T(["b", "a", "A"])], [mc.T(["{a+b}", "C(A)"], ["2.5"])],
     ]
-    fams = core + fams
+    # hierarchical families - the shape of `f*g` and `f*g*h`, where a factor is first encoded for its own term and then again,
+    # at another rank, for the interaction
+    base = ["a", "b", "A", "B", "C(A)", "I(a*2)", "{a+b}"]
+    hier = []
+    for f, g in itertools.permutations(base, 2):
+        if {f, g} == {"A", "C(A)"}:
+            continue
+        hier.append([mc.T([f]), mc.T([g]), mc.T([f, g])])
+    for f, g, h in [("a", "A", "B"), ("A", "B", "b"), ("B", "a", "b"), ("B", "C(A)", "{a+b}")]:
+        hier.append([mc.T([f]), mc.T([g]), mc.T([h]), mc.T([f, g]), mc.T([f, h]), mc.T([g, h]), mc.T([f, g, h])])
+    if not thorough:
+        hier = [fam for k, fam in enumerate(hier) if k % 2 == 0 or len(fam) > 3]
+    fams = core + hier + fams
     for fam in fams:
         for intercept in (True, False):
             for efr in (True, False):
@@ -55,8 +68,8 @@ def run(check: Check) -> None:
         "by an independent label parser; with ensure_full_rank=False also the exact expected list of labels (term by term, first factor fastest)."
     )
     check.info["rule"] = "configuration = (term family, intercept, ensure_full_rank, output); distinct = distinct (formula, options)"
-    check.bounds.update({"rows": mc.NROWS, "terms_per_formula": "<=3", "factors_per_term": "<=3", "levels": "A:3, B:2",
-                         "literal_scalings": ["2.5", "3"], "outputs": ["pandas", "numpy"]})
+    check.bounds.update({"rows": mc.NROWS, "terms_per_formula": "<=3 (+ hierarchical f*g / f*g*h families of 3 / 7 terms)", "factors_per_term": "<=3", "levels": "A:3, B:2",
+                         "literal_scalings": ["2.5", "3"], "outputs": ["pandas", "numpy"], "index_kinds": ["default", "permuted integers", "strings", "non-unique"]})
     check.out_of_scope += ["sparse output, numeric data as DataFrame columns (Series branch of the encoders) and the narwhals materializer are NOT solver-decided: scipy/narwhals cannot hold symbolic cells; the same oracle is run natively at one generic point per configuration (group matrix.other_branches/ground)",
                            "non-treatment contrasts (C11)", "more than 3 terms / 3 factors per term"]
     cases = []
@@ -77,10 +90,12 @@ def _case(check: Check, case, record=False):
     famspec, intercept, efr, out = case
     fam = [mc.T(f, l, lf) for f, l, lf in famspec]
     tmo = 60000 if check.tier == "thorough" else 10000
-    df = mc.cat_frame()
     n = mc.NROWS
     formula = mc.render_formula(fam, intercept)
     ident = f"{formula} | efr={efr} | {out}"
+    # the index of the data frame is part of "all data": a stable function of the configuration picks one of four kinds
+    index = ["default", "permuted", "string", "nonunique"][zlib.crc32(ident.encode()) % 4]
+    df = mc.cat_frame(index=index)
     if True:
         def fn(formula=formula, efr=efr, out=out):
             a, b = sym_ab(n)
@@ -107,7 +122,7 @@ def _case(check: Check, case, record=False):
                 yield "ensure_full_rank=False: complete Kronecker label list in term order", labels == exp
 
         def rep(model, label, formula=formula, efr=efr, out=out, fam=fam):
-            p = {"kind": "c02_matrix", "formula": formula, "efr": efr, "output": out,
+            p = {"kind": "c02_matrix", "formula": formula, "efr": efr, "output": out, "index": index,
                  "terms": [[list(t.factors), list(t.lits)] for t in fam]}
             generic = dict(p, a=[float(i) * 1.25 + 0.5 for i in range(n)], b=[(float(3 * i + 1) % 7) * 0.75 - 1.3 for i in range(n)])
             cands = [generic]
@@ -124,11 +139,13 @@ def _case(check: Check, case, record=False):
         if out == "pandas":
             base = {"kind": "c02_matrix", "formula": formula, "efr": efr, "terms": [[list(t.factors), list(t.lits)] for t in fam],
                     "a": [float(i) * 1.25 + 0.5 for i in range(n)], "b": [(float(3 * i + 1) % 7) * 0.75 - 1.3 for i in range(n)]}
-            for extra in ({"output": "sparse"}, {"output": "numpy", "materializer": "narwhals"}, {"output": "sparse", "materializer": "narwhals"}):
+            other = "permuted" if index != "permuted" else "nonunique"
+            for extra in ({"output": "pandas", "index": other}, {"output": "numpy", "index": other}, {"output": "sparse", "index": index},
+                          {"output": "numpy", "materializer": "narwhals"}, {"output": "sparse", "materializer": "narwhals"}):
                 bad = replays.run({**base, **extra})
                 check.obligation("matrix.other_branches/ground", "refuted" if bad else "ground")
                 if bad:
                     check.violation(f"matrix(efr={efr},{extra})::{bad.split(':', 1)[0]}", bad, {**base, **extra})
         rig.run_sym(check, "matrix", fn, claims, replay=rep, timeout_ms=tmo, case_id=ident,
-                    sample={"formula": formula, "ensure_full_rank": efr, "output": out, "data": "a,b in R^7 symbolic; A,B crossed"},
+                    sample={"formula": formula, "ensure_full_rank": efr, "output": out, "index": index, "data": "a,b in R^7 symbolic; A,B crossed"},
                     record=record)
